@@ -118,14 +118,16 @@ Theorem C11_cache_flush_spec : forall (b : tbucket) inc ttl now is_for_us,
   add_or_update trec trec_ops b inc ttl now is_for_us = Ok (aou_spec b inc ttl now is_for_us).
 Proof. exact add_or_update_spec. Qed.
 
-(* shape of the result: the first matching record is refreshed in place (reset_ttl), or the
-   incoming record is inserted at the front; every other position holds flush_entry of the old
-   record; one timer (now + 1 s) per flushed record *)
+(* shape of the result: the first matching record is refreshed in place (reset_ttl) - and is
+   reported as NEW exactly when it was on its way out (TTL <= 1, e.g. a goodbye) and the incoming
+   TTL is > 1 - or the incoming record is inserted at the front; every other position holds
+   flush_entry of the old record; one timer (now + 1 s) per flushed record *)
 Theorem C11_cache_flush_shape : forall (b : tbucket) inc ttl now b' ts isnew,
   aou_spec b inc ttl now true = Some (b', ts, isnew) ->
   ts = map (fun _ => now + 1000) (filter (fun e => i_flush inc && flushable inc now e) b) /\
-  ((isnew = false /\ exists pre e post, b = pre ++ e :: post /\ matches (c_id e) inc = true /\
+  ((exists pre e post, b = pre ++ e :: post /\ matches (c_id e) inc = true /\
        Forall (fun x => matches (c_id x) inc = false) pre /\
+       isnew = ((t_ttl (c_t e) <=? 1) && (1 <? ttl)) /\
        b' = map (flush_entry inc now) pre ++ mkC (c_id e) (fresh_reset ttl now) :: map (flush_entry inc now) post)
    \/ (isnew = true /\ Forall (fun x => matches (c_id x) inc = false) b /\
        b' = mkC inc (fresh_new ttl now) :: map (flush_entry inc now) b)).
